@@ -260,6 +260,15 @@ class Cache:
         ):
             return "window function in `filter`"
 
+        if (
+            isinstance(node, verbs.Filter)
+            and node.predicates
+            and any(col.ftype(agg_is_window=True) == Ftype.WINDOW for col in self.cols.values())
+        ):
+            # SQL applies WHERE before window functions are evaluated, so the window
+            # function would not see the rows that are filtered out here.
+            return "`filter` on a table containing a window function expression"
+
         if isinstance(node, verbs.Summarize):
             if self.is_summarized:
                 return "nested summarize"
